@@ -11,8 +11,79 @@ from __future__ import annotations
 
 from typing import Any, Callable
 
+from simkit import core
 from simkit.world import World
 from workloads import simtasks
+
+
+class SimProcess:
+    """Stand-in for multiprocessing.Process inside a Deployment: `start()` boots a fresh simulated process (an
+    actor with its own Pynenc object on the shared database, as a spawned child gets an unpickled copy) whose
+    main thread runs the real worker main.  SIGKILL = `sim.crash_actor`, SIGTERM = the handler the worker
+    installed runs in its main thread at its next yield point (and may raise there, like a real signal)."""
+
+    deployment: "Deployment | None" = None
+
+    def __init__(self, group: Any = None, target: Any = None, name: Any = None, args: Any = (), kwargs: dict | None = None, *, daemon: Any = None) -> None:
+        self.target = target
+        self.args = tuple(args)
+        self.kwargs = dict(kwargs or {})
+        self.daemon = daemon
+        self.pid: int | None = None
+        self.exitcode: int | None = None
+        self.actor: Any = None
+        self.thread: Any = None
+        self.name = name
+
+    def start(self) -> None:
+        d = SimProcess.deployment
+        assert d is not None
+        actor_name = d.next_worker_actor()
+        if actor_name is None:
+            raise OSError("simulated process table is full")
+        sim = d.sim
+        self.actor = sim.actor(actor_name)
+        kwargs = dict(self.kwargs)
+        if "app" in kwargs:
+            kwargs["app"] = d.w.apps[actor_name]
+        self.pid = self.actor.pid
+        self.name = actor_name
+        d.worker_procs[actor_name] = self
+        self.thread = core.SimThread(target=self.target, args=self.args, kwargs=kwargs, name=f"{actor_name}/main", _actor=self.actor)
+        self.thread.start()
+
+    def is_alive(self) -> bool:
+        return self.thread is not None and not self.actor.dead and self.thread.state != core.DONE
+
+    def kill(self) -> None:
+        if self.actor is not None and self.is_alive():
+            self.exitcode = -9
+            core.CURRENT.crash_actor(self.actor, "SIGKILL from parent")  # type: ignore[union-attr]
+
+    def terminate(self) -> None:
+        if self.actor is None or not self.is_alive():
+            return
+        h = self.actor.signal_handlers.get(15)
+        if callable(h):
+            self.actor.pending_calls.append(lambda: h(15, None))
+        else:
+            self.exitcode = -15
+            core.CURRENT.crash_actor(self.actor, "SIGTERM (default action)")  # type: ignore[union-attr]
+
+    def join(self, timeout: float | None = None) -> None:
+        if self.thread is not None:
+            self.thread.join(timeout)
+
+
+class SimManager:
+    def dict(self, *a: Any, **k: Any) -> dict:
+        return dict(*a, **k)
+
+    def Event(self) -> Any:  # noqa: N802
+        return core.SimEvent()
+
+    def shutdown(self) -> None:
+        return None
 
 
 class Deployment:
@@ -25,29 +96,46 @@ class Deployment:
         clients: list[str] | None = None,
         services: bool = False,
         conf: dict | None = None,
+        ppr: dict[str, int] | None = None,
         **world_kw: Any,
     ) -> None:
+        """ppr = {runner name: number of worker processes}: that runner is a PersistentProcessRunner whose
+        workers are simulated processes (SQLite stack only); the others are ThreadRunners."""
         from pynenc.runner.thread_runner import ThreadRunner
 
         if stack == "mem":
             n_runners = 1
+            ppr = None
+        self.ppr = dict(ppr or {})
         self.clients = clients or ["c"]
         self.runner_names = [f"r{i + 1}" for i in range(n_runners)]
+        self.worker_pool: list[str] = []
+        self.worker_procs: dict[str, SimProcess] = {}
+        self._patched: list[tuple[Any, str, Any]] = []
+        for rn, n_w in self.ppr.items():
+            self.worker_pool += [f"{rn}w{i + 1}" for i in range(n_w + 4)]
         base_conf = {"cached_status_time": 0.0, "runner_loop_sleep_time_sec": 0.01, "invocation_wait_results_sleep_time_sec": 0.01, "max_threads": 2}
         base_conf.update(conf or {})
-        self.w = World(seed, stack, self.runner_names + self.clients, conf=base_conf, **world_kw)
+        self.w = World(seed, stack, self.runner_names + self.worker_pool + self.clients, conf=base_conf, **world_kw)
         self.sim = self.w.sim
         self.stack = stack
         self.runners: dict[str, Any] = {}
         for name in self.runner_names:
             app = self.w.apps[name]
             self.sim.seq_actor = self.sim.actor(name)  # type: ignore[attr-defined]
-            r = ThreadRunner(app)
+            if name in self.ppr:
+                r = self._make_ppr(app, self.ppr[name])
+            else:
+                r = ThreadRunner(app)
             if not services:
                 # atomic global services (trigger loop, recovery crons) off unless asked for:
                 # pretend the last check just happened
                 r._last_atomic_service_check_time = float("inf")
             self.runners[name] = r
+        for wn in self.worker_pool:
+            # the image of a worker process: its own app object with a runner object of the parent's class
+            self.sim.seq_actor = self.sim.actor(wn)  # type: ignore[attr-defined]
+            self._make_ppr(self.w.apps[wn], 1)
         self.sim.seq_actor = None  # type: ignore[attr-defined]
         if stack == "mem":
             # the clients share the process image: app.runner is the one runner
@@ -59,6 +147,27 @@ class Deployment:
         simtasks.reset()
         simtasks.SLEEP = self._sleep
         self.tasks: dict[str, dict[str, Any]] = {}
+
+    def _make_ppr(self, app: Any, n_workers: int) -> Any:
+        import pynenc.runner.persistent_process_runner as ppr_mod
+
+        if not self._patched:
+            for attr, repl in (("Process", SimProcess), ("Manager", SimManager), ("warn_missing_main_guard", lambda: None)):
+                self._patched.append((ppr_mod, attr, getattr(ppr_mod, attr)))
+                setattr(ppr_mod, attr, repl)
+            SimProcess.deployment = self
+        app.conf.runner_cls = "PersistentProcessRunner"
+        r = ppr_mod.PersistentProcessRunner(app)
+        r._ensure_spawn_start_method = lambda: None  # type: ignore[method-assign]
+        r.conf.num_processes = n_workers
+        r.conf.min_parallel_slots = 1
+        return r
+
+    def next_worker_actor(self) -> str | None:
+        for wn in self.worker_pool:
+            if wn not in self.worker_procs:
+                return wn
+        return None
 
     def _sleep(self, seconds: float) -> None:
         self.sim.check_alive()
@@ -108,6 +217,12 @@ class Deployment:
             simtasks.SLEEP = None
 
     def close(self) -> None:
+        for mod, attr, val in reversed(self._patched):
+            setattr(mod, attr, val)
+        self._patched.clear()
+        if SimProcess.deployment is self:
+            SimProcess.deployment = None
+        self.worker_procs.clear()
         self.runners.clear()
         self.tasks.clear()
         self.w.close()
